@@ -431,8 +431,15 @@ func (state *RuntimeState) validateUserTOTP(username string, OTPValue int, t tim
 		if !valid {
 			continue
 		}
-		// Check if this value, or a later one, was already accepted
-		if counter <= profile.LastSuccessfullTOTPCounter {
+		// Check if this value, or a later one, was already accepted. The
+		// step of the last success is also remembered in memory: a profile
+		// that came from the cache is not written back, and the value must
+		// stop working all the same.
+		lastSuccessCounter := profile.LastSuccessfullTOTPCounter
+		if userRateLimit.lastSuccessCounter > lastSuccessCounter {
+			lastSuccessCounter = userRateLimit.lastSuccessCounter
+		}
+		if counter <= lastSuccessCounter {
 			logger.Printf("validateUserTOTP: TOTP value already used")
 			return false, nil
 		}
@@ -444,6 +451,7 @@ func (state *RuntimeState) validateUserTOTP(username string, OTPValue int, t tim
 				return false, err
 			}
 		}
+		userRateLimit.lastSuccessCounter = counter
 		userRateLimit.failCount = 0
 		userRateLimit.lockoutExpirationTime = time.Now()
 		state.totpLocalTateLimitMutex.Lock()
